@@ -11,7 +11,7 @@
    other string to a number >= 100), values are the small universe `oval`.  Model only;
    the proofs are in Render/OptionsProofs.v. *)
 From Coq Require Import ZArith NArith QArith List Bool String Ascii.
-From Labella Require Import Render.Geometry Render.Scene Layout.Distribute Layout.ForceState.
+From Labella Require Import Text.Utils Render.Geometry Render.Scene Layout.Distribute Layout.ForceState.
 Import ListNotations.
 Open Scope Q_scope.
 
@@ -25,7 +25,8 @@ Inductive oval :=
 | VStrs (l : list (list N))         (* a list of strings (colour lists, latexmkOptions) *)
 | VFun                              (* a callable *)
 | VDict (d : list (N * oval))       (* a nested dict *)
-| VScale (linear : bool).           (* a LinearScale (true) or TimeScale (false) object *)
+| VScale (linear : bool) (oid : N). (* a LinearScale (true) or TimeScale (false) OBJECT; oid is its identity:
+                                       0 = the module-level DEFAULT_OPTIONS["scale"], others chosen by the caller *)
 
 Definition dict := list (N * oval).
 
@@ -77,7 +78,7 @@ Definition default_latex : dict :=
 Definition default_options : dict :=
   [ (K_margin, VDict [(K_left, VNum 20); (K_right, VNum 20); (K_top, VNum 20); (K_bottom, VNum 20)]);
     (K_initialWidth, VNum 400); (K_initialHeight, VNum 400);
-    (K_scale, VScale false); (K_domain, VNone); (K_direction, VStr (s2n "right"));
+    (K_scale, VScale false 0); (K_domain, VNone); (K_direction, VStr (s2n "right"));
     (K_dotRadius, VNum 3); (K_layerGap, VNum 60); (K_labella, VDict []);
     (K_timeFn, VFun); (K_textFn, VFun);
     (K_dotColor, VStr (s2n "#222")); (K_labelBgColor, VStr (s2n "#222"));
@@ -108,8 +109,9 @@ Definition sub (d : dict) (k : N) : ores oval :=
      if "scale" not in options: self.options["scale"] = TimeScale()
      self.options["labella"] = dict(self.options["labella"])        # needs a mapping
      self.direction = self.options["direction"]
-     self.options["labella"]["direction"] = self.direction                              *)
-Definition tl_merge (user : option dict) : ores dict :=
+     self.options["labella"]["direction"] = self.direction
+   `fresh` is the identity of the TimeScale() object this constructor call creates. *)
+Definition tl_merge (fresh : N) (user : option dict) : ores dict :=
   let options := match user with None => [] | Some u => u end in
   obind (match dget options K_latex with
          | None => OOk default_latex
@@ -118,7 +120,7 @@ Definition tl_merge (user : option dict) : ores dict :=
          end) (fun latex_opts =>
   let options := dset options K_latex (VDict latex_opts) in
   let so := dupdate default_options options in
-  let so := match dget options K_scale with Some _ => so | None => dset so K_scale (VScale false) end in
+  let so := match dget options K_scale with Some _ => so | None => dset so K_scale (VScale false fresh) end in
   obind (sub so K_labella) (fun lab =>
   match lab with
   | VDict l =>
@@ -138,7 +140,7 @@ Definition truthy (v : oval) : bool :=
   | VStrs l => negb (match l with [] => true | _ => false end)
   | VFun => true
   | VDict d => negb (match d with [] => true | _ => false end)
-  | VScale _ => true
+  | VScale _ _ => true
   end.
 
 Definition str_eqb (a b : list N) : bool :=
@@ -168,12 +170,15 @@ Definition four (d : dict) (k : N) : ores (Q * Q * Q * Q) :=
    callable is applied to the datum, anything else is a constant *)
 Definition as_colour (v : oval) : ores colour_opt :=
   match v with
-  | VStr s => OOk (CConst s)
+  | VStr s => if valid_code s then OOk (CConst s) else ORaise OTypeError   (* hex2rgbstr / hex2html raise *)
   | VStrs [] => ORaise OTypeError          (* i % len([]) : ZeroDivisionError *)
-  | VStrs l => OOk (CList l)
+  | VStrs l => if forallb valid_code l then OOk (CList l) else ORaise OTypeError
   | VFun => OOk CFun
   | _ => ORaise OTypeError                 (* a constant that is not a colour string *)
   end.
+(* the border colour is only read when showBorder is on *)
+Definition as_colour_if (used : bool) (v : oval) : ores colour_opt :=
+  if used then as_colour v else OOk (match as_colour v with OOk c => c | ORaise _ => CConst [] end).
 
 Definition as_algo (v : oval) : ores algo :=
   match v with
@@ -202,11 +207,12 @@ Record resolved := mkResolved {
   r_opts : opts;                 (* what the renderers read *)
   r_engine : eopts;              (* the engine's effective options *)
   r_linear : bool;               (* the scale object is a LinearScale *)
-  r_own_scale : bool             (* the timeline made its own TimeScale (no "scale" key given) *)
+  r_own_scale : bool;            (* the timeline made its own TimeScale (no "scale" key given) *)
+  r_scale_id : N                 (* identity of the scale object the timeline points to *)
 }.
 
-Definition resolve (user : option dict) : ores resolved :=
-  obind (tl_merge user) (fun so =>
+Definition resolve (fresh : N) (user : option dict) : ores resolved :=
+  obind (tl_merge fresh user) (fun so =>
   obind (obind (sub so K_direction) as_direction) (fun dir =>
   obind (obind (sub so K_initialWidth) as_num) (fun iw =>
   obind (obind (sub so K_initialHeight) as_num) (fun ih =>
@@ -222,12 +228,12 @@ Definition resolve (user : option dict) : ores resolved :=
   obind (obind (sub so K_labelBgColor) as_colour) (fun c2 =>
   obind (obind (sub so K_labelTextColor) as_colour) (fun c3 =>
   obind (obind (sub so K_linkColor) as_colour) (fun c4 =>
-  obind (obind (sub so K_borderColor) as_colour) (fun c5 =>
+  obind (obind (sub so K_borderColor) (as_colour_if (truthy bd))) (fun c5 =>
   obind (sub so K_labella) (fun lab =>
   obind (match lab with VDict l => engine_update l | _ => ORaise OTypeError end) (fun eu =>
   obind (sub so K_scale) (fun sc =>
   match sc with
-  | VScale lin =>
+  | VScale lin sid =>
       let '(ml, mr, mt, mb) := mg in
       let '(pl, pr, pt, pb) := pd in
       OOk (mkResolved
@@ -237,6 +243,7 @@ Definition resolve (user : option dict) : ores resolved :=
              (match user with
               | None => true
               | Some u => match dget u K_scale with None => true | Some _ => false end
-              end))
+              end)
+             sid)
   | _ => ORaise OTypeError
   end)))))))))))))))))))).
